@@ -77,6 +77,9 @@ func c15Build(root string, shape []c15Entry) {
 }
 
 // c15Produce scans root/r and returns the archive stream read with the given read size.
+// c15Newline, if set, is the line ending negotiated for the transfer whose archive is produced.
+var c15Newline string
+
 func c15Produce(root string, readSize int) (top *sourceFile, stream []byte, announced int64, err error) {
 	files, err := checkPathsReadable([]string{filepath.Join(root, "r")}, true)
 	if err != nil {
@@ -84,6 +87,9 @@ func c15Produce(root string, readSize int) (top *sourceFile, stream []byte, anno
 	}
 	t := newTransfer(io.Discard, nil, false, nil)
 	t.transferConfig.Protocol = kProtocolVersion4
+	if c15Newline != "" {
+		t.transferConfig.Newline = c15Newline // the negotiated line ending of the protocol lines ("!\n" with a Windows peer)
+	}
 	tops := t.archiveSourceFiles(files)
 	if len(tops) != 1 {
 		return nil, nil, 0, fmt.Errorf("expected one archive, got %d", len(tops))
@@ -286,6 +292,15 @@ func c15Run(j vs.Job) *vs.JobResult {
 				return r
 			}
 			ref, top = stream, tp
+		}
+		// the archive stream is the same whatever line ending the protocol lines around it use
+		c15Newline = "!\n"
+		_, wstream, wannounced, werr := c15Produce(src, 4096)
+		c15Newline = ""
+		r.Execs++
+		if werr != nil || int64(len(wstream)) != wannounced || !bytes.Equal(wstream, ref) {
+			r.Violate("c15:big-produce-winnl", fmt.Sprintf("big tree with the Windows line ending negotiated: err %v announced %d produced %d (same stream as otherwise: %v)", werr, wannounced, len(wstream), bytes.Equal(wstream, ref)), nil)
+			return r
 		}
 		// boundaries of every header and payload, +-1, and a fixed stride in between
 		var cuts []int
